@@ -265,11 +265,15 @@ func c11RunSchedule(s c11Schedule) (res c11Result) {
 				err error
 			}
 			och := make(chan opened, 1)
-			go func(arg string) {
-				st, err := peer.OpenSSE(ctx, http.MethodGet, r.url, map[string]string{
-					"Accept": "text/event-stream", "Mcp-Session-Id": sid, "X-Verif-Conn": arg}, nil)
+			go func(arg string, n int) {
+				h := map[string]string{"Accept": "text/event-stream", "Mcp-Session-Id": sid, "X-Verif-Conn": arg}
+				if len(r.streams) > 0 && n%2 == 1 {
+					// a reopen the way a client that has seen events does it
+					h["Last-Event-ID"] = "evt-1-1"
+				}
+				st, err := peer.OpenSSE(ctx, http.MethodGet, r.url, h, nil)
 				och <- opened{st, err}
-			}(st.Arg)
+			}(st.Arg, i)
 			var stream *peer.Stream
 			var err error
 			select {
